@@ -3,7 +3,7 @@
 From Coq Require Import QArith List String Bool Arith.
 Import ListNotations.
 From S2 Require Import Base.Num Base.Arr Model.Expr Model.Struct Model.Rates Model.InitPop
-     Model.Solvers Model.Derived Model.Run.
+     Model.Derived.
 Local Open Scope nat_scope.
 
 Inductive op :=
